@@ -1,9 +1,10 @@
 #!/bin/bash
 # tools/seed_import.sh <Cxx> : verify the seeding agent's output in /tmp/seed-<Cxx>-out and store it under seeded/
-P="$1"; SRC="/tmp/seed-$P-out"; HERE="$(cd "$(dirname "$0")/.." && pwd)"
+# optional: <srcdir> (default /tmp/seed-<Cxx>-out) and <offset> added to the change number (round 2: offset 2)
+P="$1"; SRC="${2:-/tmp/seed-$P-out}"; OFF="${3:-0}"; HERE="$(cd "$(dirname "$0")/.." && pwd)"
 for k in 1 2 3; do
   [ -f "$SRC/patch$k.diff" ] || continue
-  DEST="$HERE/seeded/$P-$k"; mkdir -p "$DEST"
+  N=$((k + OFF)); DEST="$HERE/seeded/$P-$N"; mkdir -p "$DEST"
   cp "$SRC/patch$k.diff" "$DEST/patch.diff"; cp "$SRC/demo$k.py" "$DEST/demo.py"; cp "$SRC/meta$k.json" "$DEST/agent_meta.json" 2>/dev/null
   WT="$(mktemp -d /tmp/wt-seed.XXXXXX)"; rmdir "$WT"; git -C /repo worktree add -q --detach "$WT" HEAD
   (cd "$WT" && PYTHONPATH="$WT" timeout 300 /venv/bin/python "$DEST/demo.py" "$WT" >/dev/null 2>&1); CLEAN=$?
@@ -11,6 +12,6 @@ for k in 1 2 3; do
   (cd "$WT" && PYTHONPATH="$WT" timeout 300 /venv/bin/python "$DEST/demo.py" "$WT" >/dev/null 2>&1); CHANGED=$?
   if "$HERE/run_baseline.sh" "$WT" >/dev/null 2>&1; then BASE=green; else BASE=RED; fi
   git -C /repo worktree remove --force "$WT"
-  echo "$P-$k applies=$APPLIES demo_clean_rc=$CLEAN demo_changed_rc=$CHANGED baseline=$BASE"
+  echo "$P-$N applies=$APPLIES demo_clean_rc=$CLEAN demo_changed_rc=$CHANGED baseline=$BASE"
   echo "{\"applies\": \"$APPLIES\", \"demo_clean_rc\": $CLEAN, \"demo_changed_rc\": $CHANGED, \"baseline_with_change\": \"$BASE\", \"repo_head\": \"$(git -C /repo rev-parse --short HEAD)\"}" > "$DEST/verified.json"
 done
